@@ -131,6 +131,11 @@ def run(ck):
         if got != expect[nm]:
             ck.violation(f"{tag}: rows of the real layout satisfiable={got}, the property requires {expect[nm]}",
                          {"failing_input_found": True, "program": progs[prog], "template": tag}, key="tors:" + tag.split(",")[-1].strip().split(" (")[0] + (":aux" if "prover" in tag else ""))
+    for nm, over in composer.second_opinion(ck, jobs, expect, progs, lambda n: info[n][1], "c13_rp",
+                                            lambda n: n.startswith("tors") and (n.endswith("_f8") or "_" not in n or n.endswith(("_1", "_3"))), limit=8 if quick else 40, pp_log=8):
+        tag, prog = info[nm]
+        ck.violation(f"{tag}: the REAL prover produced a proof for this assignment and the verifier accepted it",
+                     {"failing_input_found": True, "program": progs[prog], "witness_overrides": {str(i): hx(v) for i, v in over.items()}, "template": tag}, key="accepted:" + tag[:40])
     if bad and not ck.violations:
         name, d = bad[0]
         ck.violation(f"correspondence C13 (L3) broke on {len(bad)} of {len(progs)} programs; first {name} {meta[name][:2]}: {d}",
